@@ -234,7 +234,9 @@ class Vector(object):
     def clone(self):
         """ Clone the vector """
         clone = Vector(self.names, self.defaults, self.mins,
-                       self.maxs, self.check_hitbounds)
+                       self.maxs, check_bounds=self.check_bounds,
+                       check_hitbounds=self.check_hitbounds,
+                       accept_nan=self.accept_nan)
 
         clone.values = self.values.copy()
 
